@@ -678,3 +678,38 @@ def gen_world_misfiled(rng):
     w.add_file((b"bystander", b"note.txt"), b"do not touch")
     w.tag = "mis-filed export image"
     return w
+
+
+def gen_world_dup_path_resize(rng):
+    """C14 on a torrent that lists one path twice with different declared lengths: the pre-flight must still compare the
+    existing image with EVERY declared length (an image longer than any of them aborts the run)"""
+    w = World()
+    la, lb = rng.shuffle([rng.range(6, 10), rng.range(2, 5)])
+    fa = TFile(la, [b"a"], gen_content(rng, la))
+    fb = TFile(lb, [b"a"], gen_content(rng, lb))
+    fc = TFile(rng.range(3, 8), [b"b"], b"")
+    fc.content = gen_content(rng, fc.length)
+    g = GT(b"dup2", rng.choice([3, 4, 16]), [fa, fb, fc], True)
+    w.gts = [g]; w.docs = [g.doc]
+    w.dirs.add(w.export)
+    w.scan = [(b"scan0",)]
+    w.add_file((b"scan0", b".keep"), b"k")
+    lo, hi = min(la, lb), max(la, lb)
+    state = rng.below(5)
+    tgt = tuple(g.target(w.export, fa))
+    if state == 1:
+        w.add_file(tgt, rng.bytes(rng.below(lo)))                   # shorter than both
+    elif state == 2:
+        w.add_file(tgt, rng.bytes(rng.range(lo + 1, hi - 1) if hi - lo > 1 else lo))   # between the two declared lengths
+    elif state == 3:
+        w.add_file(tgt, rng.bytes(hi + rng.range(1, 3)))            # longer than both
+    elif state == 4:
+        w.add_file(tgt, rng.bytes(lo))
+    tb = tuple(g.target(w.export, fc))
+    if rng.chance(1, 2):
+        w.add_file(tb, fc.content[:rng.below(fc.length)])
+    w.add_file((b"bystander", b"note.txt"), b"do not touch")
+    w.resize = rng.chance(4, 5)
+    w.has_truth = True
+    w.tag = "duplicate path inside one torrent (D6), resize"
+    return w
